@@ -5,6 +5,8 @@ seeded/<name>/meta.json (checks_against_change, detected_by, with_concrete_input
 import glob, json, os, re, shutil, subprocess, sys, time
 
 SCR = "/tmp/recheck"
+FAST = "--fast" in sys.argv
+sys.argv = [a for a in sys.argv if a != "--fast"]
 names = sys.argv[1:] or sorted(os.path.basename(os.path.dirname(f)) for f in glob.glob("/verif/seeded/*/meta.json"))
 env = dict(os.environ, CARGO_NET_OFFLINE="true", LP_REPO=f"{SCR}/repo", LP_HARNESS_DIR=f"{SCR}/harness",
            LP_EVIDENCE_DIR=f"{SCR}/evidence", LP_REPLAY_DIR=f"{SCR}/replays")
@@ -37,10 +39,24 @@ for name in names:
         continue
     results = {}
     for c in manifest["checks"]:
+        if FAST and c["property_id"] != meta["property"]:
+            continue
         t0 = time.time()
         rc, o = sh(c["quick_cmd"], "/verif")
         viol = [l for l in o.splitlines() if l.startswith("VIOLATION") or l.startswith("KNOWN-FINDING")]
         results[c["property_id"]] = {"exit": rc, "lines": viol, "wall_s": round(time.time() - t0, 1)}
+    if FAST:
+        # the other properties: one shared run of all monitors and projections (`./check ALL quick`); an
+        # ALL-VIOLATION line stands for the VIOLATION line that property's own check would print
+        t0 = time.time()
+        rc, o = sh("./check ALL quick", "/verif")
+        for l in o.splitlines():
+            m = re.match(r"ALL-VIOLATION property=(C\d\d) kinds=(\S+) concrete=(\d)", l)
+            if m and m.group(1) not in results:
+                line = f"VIOLATION property={m.group(1)} replay=(check ALL: {m.group(2)})" + ("" if m.group(3) == "1" else " no-failing-input-found")
+                results[m.group(1)] = {"exit": 1, "lines": [line], "wall_s": round(time.time() - t0, 1), "via": "check ALL"}
+        for c in manifest["checks"]:
+            results.setdefault(c["property_id"], {"exit": 0, "lines": [], "wall_s": 0, "via": "check ALL"})
     sh("git checkout -- .", f"{SCR}/repo")
     meta["checks_against_change"] = results
     meta["detected_by"] = sorted(k for k, v in results.items() if v["exit"] != 0)
